@@ -87,10 +87,14 @@ class Lazy:
             for e in ('normal', 'client-close-after-resp1', 'upstream-closes-after-resp1'):
                 self.index.append((combo, False, e + '+faults'))
 
+        self.extra = followup_rejections()
+
     def __len__(self):
-        return len(self.index)
+        return len(self.index) + len(self.extra)
 
     def name(self, k):
+        if k >= len(self.index):
+            return self.extra[k - len(self.index)].name
         combo, auth, e = self.index[k]
         return '%s/%s/%s' % ('.'.join(map(str, combo)), {'listed': 'authlisted', 'pool': 'pool', True: 'auth', False: 'noauth'}[auth], e)
 
@@ -100,6 +104,8 @@ class Lazy:
                 return self[k]
 
     def __getitem__(self, k):
+        if k >= len(self.index):
+            return self.extra[k - len(self.index)]
         combo, auth, e = self.index[k]
         faulty = e.endswith('+faults')
         e = e.replace('+faults', '')
@@ -144,6 +150,55 @@ class Lazy:
                                   '_bound': 1 if faulty else 0, '_faulty': faulty,
                                   'hooks': ','.join(sorted(set(OPTIONS[c][0] + ':' + OPTIONS[c][1] for c in combo if c))),
                                   '_behs': behs})
+
+
+BIG1 = b'HTTP/1.1 200 OK\r\nContent-Length: 30000\r\n\r\n' + bytes(65 + (i * 7) % 26 for i in range(30000))
+
+
+def followup_rejections():
+    """A plugin turns down the SECOND request of a connection (403) while output of the first is still on its way to
+    the client: (a) the whole first response already sits in the proxy's buffer for a client that reads late,
+    (b) the origin is still sending it.  The client must get response 1 intact, then exactly the plugin's 403."""
+    out = []
+    klass = plugins.recorder('gate2', {'handle_client_request': ('reject_path', (b'/two', 403, b'no-two'))})
+    pieces = [BIG1[i:i + 3000] for i in range(0, len(BIG1), 3000)]
+    for (nm, script, origin) in (
+            ('buffered-for-late-reader', [('stop_reading',), ('send', R1), ('wait_idle',), ('send', R2), ('wait_idle',), ('start_reading',), ('wait_eof',)],
+             lambda: HttpOrigin([[BIG1]])),
+            ('while-origin-still-sends', [('send', R1), ('wait_recv', 2000), ('send', R2), ('wait_eof',)],
+             lambda: HttpOrigin([pieces]))):
+        out.append(Scenario('followup-rejected/%s' % nm, ['--threadless'], flags_opts={'plugins': [klass]}, mode='local',
+                            clients=[dict(script=script)], origins={('10.0.0.1', 80): origin}, dns={'h.test': '10.0.0.1'},
+                            kinds='', horizon=3000,
+                            features={'n_plugins': 1, 'auth': False, 'auth_plugin_listed': False, 'conn_pool': False,
+                                      'resolve_dns_overridden': False, 'ending': 'followup-rejected-' + nm, 'hooks': 'handle_client_request:reject_path',
+                                      '_bound': 0, '_faulty': False, '_behs': [], '_sockbuf': 4096, '_special': 'followup_rejection'}))
+    return out
+
+
+def check_followup_rejection(w):
+    if w.died or w.run_exc:
+        return [{'symptom': 'executor_died', 'features': {}, 'detail': w.run_exc}]
+    c = w.clients[0]
+    rx = bytes(c.rx)
+    want = BIG1
+    out = []
+    res, rest = oracles.parse_responses(rx, [b'GET', b'GET'], eof=c.eof)
+    ok = [r for r in res if r['ok']]
+    detail = {'rx_len': len(rx), 'statuses': [r.get('status') for r in res], 'eof': c.eof,
+              'first_403_at': rx.find(b'HTTP/1.1 403'), 'response_1_len': len(want)}
+    if not rx.startswith(want):
+        out.append({'symptom': 'rejection_response_spliced_into_a_response_in_flight' if b'HTTP/1.1 403' in rx[:len(want)]
+                    else 'response_in_flight_lost_when_followup_rejected', 'features': {}, 'detail': detail})
+        return out
+    if len(ok) < 2 or ok[1]['status'] != 403 or ok[1]['body'] != b'no-two':
+        out.append({'symptom': 'client_did_not_get_the_rejection_response', 'features': {}, 'detail': detail})
+    elif rest or not c.eof:
+        out.append({'symptom': 'connection_not_closed_after_rejection', 'features': {}, 'detail': dict(detail, rest=rest[:60])})
+    reached = [t for o in w.origin_conns for t in [q['target'] for q in getattr(o, 'requests', [])]]
+    if b'/two' in reached:
+        out.append({'symptom': 'rejected_request_forwarded', 'features': {}, 'detail': dict(detail, reached=reached)})
+    return out
 
 
 def stopper(beh, hook, path=None):
@@ -210,6 +265,8 @@ def chain_chunk(behs, data):
 
 def check(w):
     f = w.scn.features
+    if f.get('_special') == 'followup_rejection':
+        return check_followup_rejection(w)
     behs = f['_behs']
     e = f['ending']
     if w.died or w.run_exc:
